@@ -143,8 +143,12 @@ class Fmt:
                     self.reach = False
         self.input = "".join(p[0] for p in pieces) or " "
 
+    dm = None     # dest size handed to the buffer variants (None: the RSIZE_MAX limits)
+
     def line(self, i, only=None):
         s = "id=%d kind=%s fmt=%s in=%s" % (i, self.kind, self.text.encode().hex(), self.input.encode().hex())
+        if self.dm is not None:
+            s += " dm=%d" % self.dm
         return s + (" only=" + only if only else "")
 
 
@@ -194,6 +198,19 @@ def gen_formats(rng, tier):
         d = D("n", flags=fl, prec=pr)
         add("s", [d], "single-invalid")
         add("s", [D("d"), d, D("n", length="l")], "single-invalid")
+
+    # -- 1b. small destinations: the rejection of `%n` must not depend on how much room dest has
+    #        (a pre-scan bounded by dmax, or an engine that runs out of space before it reaches the directive)
+    for k in (0, 1, 2, 3, 5, 8, 13):
+        for tail in ([], ["b"], [D("d")]):
+            for nd in (D("n"), D("n", length="l")):
+                for pre in (["a"] * k, [D("d")] + ["a"] * k):
+                    items = list(pre) + [nd] + list(tail)
+                    tlen = len(Fmt("p", list(items), "x").text)
+                    for dm in sorted({1, 2, 3, k, k + 1, k + 2, k + 3, tlen - 1, tlen, tlen + 1, tlen + 2}):
+                        if dm >= 1:
+                            add("p", items, "small-dest")
+                            out[-1].dm = dm
 
     # -- 2. runs of percent signs in front of n / ln / 5n / d, with and without something in front
     for k in range(1, 7 if thorough else 5):
@@ -264,7 +281,7 @@ def gen_formats(rng, tier):
     # distinct (kind, text, input)
     seen, uniq = set(), []
     for f in out:
-        k = (f.kind, f.text, f.input)
+        k = (f.kind, f.text, f.input, f.dm)
         if k not in seen and not f.overflow:
             seen.add(k); uniq.append(f)
     return uniq
@@ -311,6 +328,8 @@ def run(tier, seed, replay=None):
         if "fmt" not in rep:
             print(json.dumps(rep, indent=1)[:3000]); return 0
         line = "id=0 kind=%s fmt=%s in=%s only=%s" % (rep["fkind"], rep["fmt"].encode().hex(), rep.get("input", " ").encode().hex(), rep["ep"])
+        if rep.get("dmax") is not None:
+            line += " dm=%d" % rep["dmax"]
         c, _, _ = proto.run_lines([hbin], [line])
         m, _, _ = proto.run_lines([orch.MODEL_BIN], ["id=0 fmtq=%s" % (rep["fmt"].encode().hex() or "-")])
         print("format:", repr(rep["fmt"]), "input:", repr(rep.get("input")), "entry point:", rep["ep"])
@@ -338,7 +357,7 @@ def run(tier, seed, replay=None):
             h["count"] += 1; h["sigs"].add(sig)
         else:
             res.violations.append((sig, dict(kind="property-fails-on-implementation", property=PID, sig=sig, detail=detail, ep=ep,
-                                             fmt=f.text, input=f.input, fkind=f.kind, impl=dc, model=dm, model_predicts=agree, origin=f.origin)))
+                                             fmt=f.text, input=f.input, fkind=f.kind, impl=dc, model=dm, model_predicts=agree, origin=f.origin, dmax=f.dm)))
 
     def mismatch(f, ep, what, dc, dm, ref=None):
         res.mismatch.append(dict(kind="correspondence", property=PID, fn=ep, what=what, fmt=f.text, input=f.input, impl=dc, model=dm, ref=ref, fkind=f.kind))
@@ -350,7 +369,7 @@ def run(tier, seed, replay=None):
         nmask = sum(1 << s for s in f.nslots) if f.kind == "s" else 0x1FFFF
         refs = {w: c.get("%d.%s" % (i, REF[f.kind][w])) for w in "nw"}
         # --- libc grammar model against plain glibc
-        if dm is not None:
+        if dm is not None and f.dm is None:
             pred_libc = dm["pn" if f.kind == "p" else "sn"] != "-"
             for w in "nw":
                 r = refs[w]
@@ -386,7 +405,7 @@ def run(tier, seed, replay=None):
                 res.samples.append(dict(entry=ep, fmt=f.text, input=f.input if f.kind == "s" else None, impl={k: v for k, v in dc.items() if k != "id"}))
             # --- model prediction
             agree = None
-            if dm is not None:
+            if dm is not None and f.dm is None:
                 ps = dm["ps"] == "1"
                 r = refs[w]
                 if engine:
